@@ -239,6 +239,8 @@ fn replay_known(ctx: &Ctx, k: &Known) -> Verdict {
     Ok(())
 }
 
+const EXTRA_BROKEN: &str = "\ntemplate ZzBroken(k) {\n    signal input zin;\n    var (za, zb) = (k, 2, 3);\n    signal output zout;\n    zout <-- zin;\n}\n";
+
 const EXTRA_DEFS: &str = "\ntemplate ZzExtra(k) {\n    signal input zin;\n    signal output zout;\n    var zv = k * 2;\n    zout <-- zin * zv;\n}\nfunction zzextra(x) {\n    var y = x + 1;\n    return x;\n}\n";
 
 fn case_in(ctx: &Ctx, p: &GenProject, t: &mut Tape, rec: &Rec, dir: &Path) -> Verdict {
@@ -323,8 +325,14 @@ fn case_in(ctx: &Ctx, p: &GenProject, t: &mut Tape, rec: &Rec, dir: &Path) -> Ve
             }
         }
     }
-    // (c) add definitions nobody references to the first named file
+    // (c) add definitions nobody references to the first named file: valid ones, or one that the
+    // desugarer has to reject (its error is the added finding; the others must not change either)
     {
+        let broken = t.chance(90);
+        let extra_defs: &str = if broken { EXTRA_BROKEN } else { EXTRA_DEFS };
+        if broken {
+            rec.class("extension_runs_with_definition_rejected_by_the_desugarer");
+        }
         let dir3 = dir.join("extra");
         let _ = std::fs::create_dir_all(&dir3);
         let target = p.named[0];
@@ -335,11 +343,11 @@ fn case_in(ctx: &Ctx, p: &GenProject, t: &mut Tape, rec: &Rec, dir: &Path) -> Ve
                 // insert before a main component if there is one, else append
                 let insert_at = f.ast.main.as_ref().and_then(|m| f.r.tight_span(m.id)).map(|s| s.0).unwrap_or(src.len());
                 start_line = src[..insert_at].matches('\n').count() as u64 + 1;
-                src.insert_str(insert_at, EXTRA_DEFS);
+                src.insert_str(insert_at, extra_defs);
             }
             std::fs::write(dir3.join(&f.rel), src).map_err(|e| Bad::new(format!("INFRA write: {e}")))?;
         }
-        let extra_lines = EXTRA_DEFS.matches('\n').count() as u64;
+        let extra_lines = extra_defs.matches('\n').count() as u64;
         let named3: Vec<PathBuf> = p.named.iter().map(|i| dir3.join(&p.files[*i].rel)).collect();
         let target_path = std::fs::canonicalize(dir3.join(&p.files[target].rel)).map(|p| p.display().to_string()).unwrap_or_default();
         if let Some(o) = observe(ctx, &named3, &dir3)? {
